@@ -119,7 +119,7 @@ func checkC09(p *Prog, r *Report) {
 
 	// ---- Range
 	n := checkSpliceLoops(p, r, pc, rng)
-	r.floor("splices in Range", n, 1)
+	r.count("splices in Range", n)
 
 	h := newHeap(p)
 	bad := 0
